@@ -267,6 +267,9 @@ def error_term(item, ids, lit_ids, proj):
     m = re.match(r"invalid Lua module at `([^`]*)`", item)
     if m and m.group(1) in ids:
         return "EModule %d" % ids[m.group(1)]
+    m = re.match(r"unable to require resource with extension `[^`]*` at `([^`]*)`", item)
+    if m and m.group(1) in ids:
+        return "EResource %d" % ids[m.group(1)]
     if re.match(r"unable to read (json|yaml|toml) data", item):
         d = proj.get("defect")
         if d and d[0] == "baddata":
@@ -359,6 +362,19 @@ def behaviour_stream(ctx, rnd, n_random, proofs_ok, wide_widths=(140,)):
             k += 1
             add(G.data_holes_project(rnd, "luau" if k % 3 == 0 else "path", fmt, holes), GENERATORS[k % 3],
                 rnd.choice([[], [], ["remove_unused_variable", "rename_variables"]]), None, "ordinary")
+    # two distinct files with the same stem (Lua + data, lua + luau, data + data), both required
+    for pi, pair in enumerate(G.SAMESTEM_PAIRS):
+        for mode in ("path", "luau"):
+            k += 1
+            add(G.samestem_project(rnd, mode, pair, k % 3), GENERATORS[k % 3], rnd.choice([[], [], ["rename_variables"]]), None, "ordinary")
+    # the same alias in the nearest .luaurc and in the configuration (reference = the unchanged tree, per mode)
+    losers = {}
+    for mode in ("luau", "path"):
+        for rc_at_root in (False, True):
+            k += 1
+            proj = G.alias_precedence_project(rnd, mode, rc_at_root, k)
+            add(proj, GENERATORS[k % 3], [], None, "ordinary")
+            losers[pid] = proj
     # TOML special floats / datetimes / integers beyond 2^53, YAML .inf/.nan; JSON5 Infinity/NaN (recorded finding)
     for kind, fmt in (("toml-specials", "toml"), ("toml-specials", "toml"), ("toml-specials", "toml"), ("yaml-specials", "yaml")):
         k += 1
@@ -503,6 +519,13 @@ def behaviour_stream(ctx, rnd, n_random, proofs_ok, wide_widths=(140,)):
             ctx.violation("the accessor names of a bundle of %d modules are not %d distinct non-keyword identifiers "
                           "(%d names, %d distinct, offending: %s)" % (width + 1, width + 1, len(names), len(set(names)), badn[:5]),
                           replay_of(p), key="accessor-names:%d" % width)
+    # alias defined twice: the other target must not be in the bundle at all
+    for p, proj in losers.items():
+        status, _ = unhex_msg(results[p][0])
+        if status == "OK" and "LOSER" in bytes.fromhex(results[p][2]).decode("utf-8", "replace"):
+            ctx.violation("alias `@pkg` is defined in .luaurc and in the configuration: the bundle contains `%s`, the "
+                          "unchanged tree bundles the other target in %s mode" % (proj["loser"], proj["mode"]), replay_of(p),
+                          key="alias-precedence:%s" % proj["mode"])
     # retain_lines keeps every `;` that ends a block together with the comment behind it, once
     tags_checked = 0
     for p, proj in semis.items():
@@ -664,9 +687,30 @@ DEFECT_SHAPES = [
 ]
 
 
+# a module that fails to load next to a REAL cycle that is closed afterwards (or before): (n, adjacency, failing node)
+CYCLE_DEFECT_SHAPES = [
+    (4, [[1], [3, 2], [1], []], 3),            # a -> broken, then a -> b -> a
+    (4, [[1], [2, 3], [1], []], 3),            # the cycle first, the failure after it
+    (4, [[1], [2], [3, 1], []], 3),            # the failure inside b, before b closes the cycle
+    (4, [[3, 1], [2], [1], []], 3),            # the failure at entry level, before the cycle is entered
+    (5, [[1], [4, 2], [3], [1], []], 4),       # a longer cycle after the failure
+    (3, [[1], [2, 1], []], 2),                 # a self loop after the failure
+    (5, [[1], [2], [4, 3], [2, 1], []], 4),    # two nested cycles after a failure two levels deep
+]
+
+
 def defect_stream(ctx, rnd):
     projects, jobs = {}, []
     pid = 0
+    for n, adj, node in CYCLE_DEFECT_SHAPES:
+        for d in [("syntax", node), ("badext", node), ("baddata", node, "json"), ("baddata", node, "toml"), ("missing", node),
+                  ("two", node), ("bare", node), ("noreturn", node)]:
+            pid += 1
+            proj = G.small_project(n, adj, mode="luau" if pid % 4 == 0 else "path", defect=d)
+            proj["with_cycle"] = True
+            projects[pid] = proj
+            jobs.append({"id": pid, "files": proj["files"], "entry": proj["entry"],
+                         "config": config_text(proj, GENERATORS[pid % 3], [], None)})
     for n, adj in DEFECT_SHAPES:
         for node in range(1, n):
             kinds = [("missing", node), ("syntax", node), ("two", node), ("three", node), ("noreturn", node), ("bare", node),
@@ -681,6 +725,7 @@ def defect_stream(ctx, rnd):
                              "config": config_text(proj, GENERATORS[pid % 3], [], None)})
     results = run_harness(jobs)
     named = 0
+    chains_checked = 0
     for p, proj in projects.items():
         status, message = unhex_msg(results[p][0])
         d = proj["defect"]
@@ -697,12 +742,26 @@ def defect_stream(ctx, rnd):
         else:
             ctx.violation("the error for a %s module does not name the file `%s`: %s" % (d[0], want, message[:200]), rep,
                           key=KEY_DATA_ERR if d[0] == "baddata" else "defect-message:%s" % d[0])
+        # every cyclic-require error names a closed walk of the graph: exactly the files of the cycle, never the
+        # module that failed to load before / beside it
+        items = [it for it in split_errors(message) if it.startswith("cyclic require detected")]
+        if proj.get("with_cycle") and not items:
+            ctx.violation("a real cycle next to a %s module is not reported" % d[0], rep, key="cycle-beside-defect-missing:%s" % d[0])
+        for it in items:
+            chains_checked += 1
+            chain = [strip_dot(c) for c in re.findall(r"`([^`]*)`", it)]
+            idx = [proj["paths"].index(c) if c in proj["paths"] else -1 for c in chain]
+            if len(idx) < 2 or idx[0] != idx[-1] or -1 in idx or any(b not in proj["adj"][a] for a, b in zip(idx, idx[1:])) \
+                    or d[1] in idx:
+                ctx.violation("the cyclic-require error does not name the files of the cycle (a %s module was loaded "
+                              "before it): %s" % (d[0], it[:200]), rep, key="cycle-chain-beside-defect:%s" % d[0])
     cases, cidx = model_cases(projects, results)
     bad = C.run_coq_cases(ctx.prop, SHAPE_PREAMBLE, cases, chunk=200, tag="defects")
     ctx.stream("missing file / syntax error / 2 or 3 values / no return / bare `return` / return inside a final do / "
                "malformed data at every node of 5 graph shapes: "
-               "an error naming the file, and the model's error list", len(cases), len(cases), [],
-               named=named, mismatches=len(bad))
+               "an error naming the file, and the model's error list; the same failures next to a real cycle closed "
+               "afterwards / before (7 shapes x 8 failures): the reported chain is the cycle, and equals the model's",
+               len(cases), len(cases), [], named=named, cycle_chains_checked=chains_checked, mismatches=len(bad))
     return [(cidx[k], d) for k, d in bad], projects, results
 
 
